@@ -65,7 +65,7 @@ def main():
     def fail(**kw):
         print(json.dumps({'found': True, 'cases': cases, 'witness': {k: str(v) for k, v in kw.items()}})); sys.exit(0)
     alphabet = 'ACGTacgtuUNn-R'
-    specials = ['', ' ACGT', '\tACGTACGT', '\nACGTAC', 'ACGT ', ' ACGTACGTA', 'ACGéTACGT', 'ACŁGTACGT', '乁ACGTACGT', 'ACGTACGTŃ', 'NNNN', 'A']
+    specials = ['AC\u1e97GT', '\ufb05ACGT', '\u1e9aCGTA', 'AC\ufb06GT', 'ac\u00dfgt', '', ' ACGT', '\tACGTACGT', '\nACGTAC', 'ACGT ', ' ACGTACGTA', 'ACGéTACGT', 'ACŁGTACGT', '乁ACGTACGT', 'ACGTACGTŃ', 'NNNN', 'A']
     def rnd(n): return ''.join(rng.choice(alphabet) for _ in range(n))
     seqs = specials + [rnd(rng.randrange(1, 60)) for _ in range(400 if thorough else 120)]
     for s in seqs:
